@@ -46,7 +46,8 @@ type c30SCRec struct {
 	shutdown      bool // the policy called Shutdown
 	seen          int  // deliveries already consumed by the oracle
 	connectCalls  int
-	afterShutdown int // deliveries that arrived after Shutdown() returned
+	alt           bool // the subchannel currently uses its alternate address list (c30-b<i>)
+	afterShutdown int  // deliveries that arrived after Shutdown() returned
 }
 
 func (s *c30SCRec) last() connectivity.State {
@@ -73,7 +74,8 @@ type c30DialRes struct {
 }
 
 type c30Pending struct {
-	ch chan c30DialRes
+	ch  chan c30DialRes
+	ctx context.Context
 }
 
 type c30Conn struct {
@@ -116,9 +118,9 @@ func (w *c30World) anomaly(f string, a ...any) {
 
 func c30AddrIndex(addr string) int {
 	switch {
-	case strings.HasPrefix(addr, "c30-a0"):
+	case strings.HasPrefix(addr, "c30-a0"), strings.HasPrefix(addr, "c30-b0"):
 		return 0
-	case strings.HasPrefix(addr, "c30-a1"):
+	case strings.HasPrefix(addr, "c30-a1"), strings.HasPrefix(addr, "c30-b1"):
 		return 1
 	}
 	return -1
@@ -129,11 +131,11 @@ func (w *c30World) dial(ctx context.Context, addr string) (net.Conn, error) {
 	if i < 0 {
 		return nil, fmt.Errorf("c30: unexpected dial target %q", addr)
 	}
-	pd := &c30Pending{ch: make(chan c30DialRes, 1)}
+	pd := &c30Pending{ch: make(chan c30DialRes, 1), ctx: ctx}
 	w.mu.Lock()
 	w.tick()
 	w.dials[i]++
-	if w.pend[i] != nil {
+	if w.pend[i] != nil && w.pend[i].ctx.Err() == nil { // an attempt whose context is cancelled was abandoned
 		w.anomaly("two connection attempts of subchannel %d are in progress at the same time", i)
 	}
 	inst := w.inst[i]
@@ -298,6 +300,13 @@ func (p *c30Policy) UpdateClientConnState(s balancer.ClientConnState) error {
 	case c30EvConnect, c30EvConnFail, c30EvConnOK:
 		rec.connectCalls++
 		rec.sc.Connect()
+	case c30EvUpdAddrs:
+		rec.alt = !rec.alt
+		a := fmt.Sprintf("c30-a%d:1", rec.Idx)
+		if rec.alt {
+			a = fmt.Sprintf("c30-b%d:1", rec.Idx)
+		}
+		p.cc.UpdateAddresses(rec.sc, []resolver.Address{{Addr: a}})
 	case c30EvShutdown:
 		rec.shutdown = true
 		rec.sc.Shutdown()
